@@ -9,7 +9,7 @@ ShapesQ == { <<D("ms_p2sh", 2, <<1, 2, 3>>, "c"), D("p2pkh", 1, <<1>>, "u")>>,
              <<D("p2wpkh", 1, <<2>>, "c"), D("ms_p2sh_p2wsh", 3, <<3, 2, 1>>, "c")>> }
 ShapesT == ShapesQ \cup
            { <<D("ms_bare", 3, <<4, 3, 2, 1>>, "c")>>, <<D("p2sh_p2wpkh", 1, <<4>>, "c"), D("p2pk", 1, <<2>>, "c")>> }
-HTq == {1, 131}
+HTq == {131}
 ShapesOC == { <<D("ms_p2sh", 2, <<1, 2, 3>>, "c"), D("p2pkh", 1, <<1>>, "u")>> }
 CoinsQ == {"BTC", "BCH"}
 CoinsD == {"BTG"}
@@ -22,6 +22,8 @@ ShapesW == { <<D("ms_p2sh", 2, <<1, 2, 3>>, "c"), D("p2pkh", 1, <<1>>, "u")>>,
 \* subset of keys and of inputs, to the full depth
 DeepPasses == {p \in AllPasses : p.mech = "lookup" /\ p.scr /\ p.reg = {} /\ p.sec = {} /\ p.fresh /\ p.ic = "set"}
 NoKcAdds == {}
+NoEdits == {}
+FewEdits == {[m |-> "lock", a |-> 0, b |-> 0], [m |-> "out_amt", a |-> 1, b |-> 0], [m |-> "seq", a |-> 2, b |-> 0]}
 \* "wide" configurations: every mechanism, keychain tables, missing scripts - fewer key subsets
 WidePasses == {p \in AllPasses : /\ Canonical(p) /\ p.I \in {Ins, {1}, {}} /\ (p.I = Ins <=> p.ic = "none")
                                   /\ Cardinality(p.K) \in {0, 1, NK} /\ p.reg \in {{}, {1, 2}, {2, 3}, Keys}}
